@@ -179,6 +179,10 @@ func initSymIntrinsics() {
 			m.overrides[strArg(m, a[0])] = iv.v
 			return nil
 		},
+		"Schedules": func(m *Machine, c *frame, fn *ssa.Function, a []value) value {
+			m.schedOff = m.asTerm(a[0]).C == 0
+			return nil
+		},
 		"RacyScope": func(m *Machine, c *frame, fn *ssa.Function, a []value) value {
 			m.racyScope = strArg(m, a[0])
 			return nil
